@@ -221,6 +221,12 @@ void orc_delivery(Delivery &d) {
     if (on("C16")) orc_c16_delivery(d);
     if (on("C17")) orc_c17_delivery(d);
     if (on("C19")) orc_c19_delivery(d);
+    // which descriptor sources delivered (arrival-vs-delivery oracle of C03)
+    for (auto &e : d.evts)
+        if (e.type == M_SRC_TYPE_FD) {
+            Slot &s = W->slots[d.slot];
+            for (auto &x : s.srcs) if (x.type == M_SRC_TYPE_FD && x.ud == e.ud) { x.delivered_gseq = R->gseq; x.missed_polls = 0; }
+        }
     // a one-shot subscription is gone once it delivered
     for (auto &e : d.evts) {
         if (e.type != M_SRC_TYPE_PS || e.system || d.in_unstash || !e.ud) continue;
@@ -236,7 +242,10 @@ void orc_delivery(Delivery &d) {
     // bookkeeping shared by several oracles: which (send, recipient) pairs were delivered
     if (!d.in_unstash)
         for (auto &e : d.evts)
-            if (e.type == M_SRC_TYPE_PS && !e.system && e.send_id >= 0) W->sends[e.send_id].delivered[d.slot]++;
+            if (e.type == M_SRC_TYPE_PS && !e.system && e.send_id >= 0) {
+                W->sends[e.send_id].delivered[d.slot]++;
+                if (W->slots[d.slot].pending > 0) W->slots[d.slot].pending--;
+            }
 }
 
 void orc_c02_send(SendRec &s);
